@@ -405,6 +405,14 @@ func (c *VCtx) applyModifies(st *State, ct *FuncContract, callee *ssa.Function, 
 		if _, ok := c.heapSorts[name]; !ok {
 			c.heapSorts[name] = sort
 		}
+		if name == "G:now" {
+			// time only moves forward
+			old := c.now(st)
+			n := c.fresh("now", SInt)
+			c.fact(Ge(n, old))
+			st.heaps["G:now"] = n
+			continue
+		}
 		if name == "G:alloc" {
 			// allocation only grows
 			old := c.allocHeap(st)
